@@ -353,6 +353,37 @@ static void mode_cdb(void)
     }
   }
   H_SAMPLE("cdb: 9 records (empty key, duplicate key, case twins, bytes >= 0x80, 64-byte key) built by cdbmss; 13 lookups x {intact, one failing read at every call, every truncation}");
+  /* colliding keys: every key over {a..h} of length 1..4 is hashed; every PAIR of keys that share one of the 256 tables is written (by cdbmss) as a
+   * database of its own and both are looked up, together with a third key of the same table that is absent; then, per table, all its keys at once.
+   * Two keys in a 4-slot table start probing in the same slot, or in the last slot, in a known fraction of the pairs: chains and the wrap-around
+   * from the last slot to slot 0 are forced, not hoped for. */
+  {
+    enum { MAXK = 4680 }; static char keys[MAXK][5]; static uint32 hs[MAXK]; static int byb[256][64], nb[256]; int nk = 0, a, b2, L, t; long pairs = 0, same_start = 0, wraps = 0; char idx[4];
+    for (L = 1; L <= 4; L++) { memset(idx, 0, sizeof idx); for (;;) { int j; for (j = 0; j < L; j++) keys[nk][j] = 'a' + idx[j]; keys[nk][L] = 0; hs[nk] = cdb_hash((unsigned char *) keys[nk], L); nk++; j = L - 1; while (j >= 0 && ++idx[j] == 8) { idx[j] = 0; j--; } if (j < 0) break; } }
+    for (a = 0; a < nk; a++) { t = hs[a] & 255; if (nb[t] < 64) byb[t][nb[t]++] = a; }
+    for (t = 0; t < 256; t++) for (a = 0; a < nb[t]; a++) for (b2 = 0; b2 < nb[t]; b2++) {
+      int ka = byb[t][a], kb = byb[t][b2], kc = byb[t][(b2 + 1) % nb[t]], q; struct cdbmss cc; uint32 dl; char data[16];
+      if (a == b2) continue; if (kc == ka || kc == kb) kc = byb[t][(b2 + 2) % nb[t]]; if (kc == ka || kc == kb) kc = -1;
+      if (ftruncate(fd, 0) || lseek(fd, 0, SEEK_SET) != 0 || cdbmss_start(&cc, fd) == -1) h_real_exit(2);
+      if (cdbmss_add(&cc, (unsigned char *) keys[ka], strlen(keys[ka]), (unsigned char *) "A", 1) == -1 || cdbmss_add(&cc, (unsigned char *) keys[kb], strlen(keys[kb]), (unsigned char *) "B", 1) == -1 || cdbmss_finish(&cc) == -1) h_real_exit(2);
+      pairs++; if (((hs[ka] >> 8) & 3) == ((hs[kb] >> 8) & 3)) same_start++; if (((hs[kb] >> 8) & 3) == 3 && (((hs[ka] >> 8) & 3) == 3)) wraps++;
+      for (q = 0; q < 3; q++) { int kq = q == 0 ? ka : q == 1 ? kb : kc; int res; if (kq < 0) continue;
+        snprintf(h_cur, sizeof h_cur, "c00 cdb collisions: database {%s,%s}, lookup %s", keys[ka], keys[kb], keys[kq]);
+        res = cdb_seek(fd, keys[kq], strlen(keys[kq]), &dl); n_eval++;
+        if (q < 2) { if (res != 1 || dl != 1 || cdb_bread(fd, data, 1) != 0 || data[0] != (q == 0 ? 'A' : 'B')) { H_FAIL("lib:cdb_seek:colliding-keys", "database with the two keys %s and %s (same hash table, first probe slots %u and %u of 4): lookup of %s returns %d", keys[ka], keys[kb], (unsigned) ((hs[ka] >> 8) & 3), (unsigned) ((hs[kb] >> 8) & 3), keys[kq], res); break; } }
+        else if (res != 0) { H_FAIL("lib:cdb_seek:colliding-keys-absent", "database with the two keys %s and %s: lookup of the absent key %s (same hash table) returns %d", keys[ka], keys[kb], keys[kq], res); break; }
+        n_nontrivial++; }
+    }
+    for (t = 0; t < 256; t++) { struct cdbmss cc; uint32 dl; char data[16];
+      if (ftruncate(fd, 0) || lseek(fd, 0, SEEK_SET) != 0 || cdbmss_start(&cc, fd) == -1) h_real_exit(2);
+      for (a = 0; a < nb[t]; a += 2) if (cdbmss_add(&cc, (unsigned char *) keys[byb[t][a]], strlen(keys[byb[t][a]]), (unsigned char *) keys[byb[t][a]], strlen(keys[byb[t][a]])) == -1) h_real_exit(2);
+      if (cdbmss_finish(&cc) == -1) h_real_exit(2);
+      for (a = 0; a < nb[t]; a++) { const char *kq = keys[byb[t][a]]; int res; snprintf(h_cur, sizeof h_cur, "c00 cdb full table %d lookup %s", t, kq); res = cdb_seek(fd, (char *) kq, strlen(kq), &dl); n_eval++;
+        if (a % 2 == 0 ? !(res == 1 && dl == strlen(kq) && cdb_bread(fd, data, dl) == 0 && !memcmp(data, kq, dl)) : res != 0) { H_FAIL("lib:cdb_seek:crowded-table", "database holding every second of the %d keys of hash table %d: lookup of %s key %s returns %d", nb[t], t, a % 2 ? "the absent" : "the stored", kq, res); break; }
+        n_nontrivial++; } }
+    H_SAMPLE("cdb collisions: %d keys over {a..h}^1..4; %ld two-key databases whose keys share a hash table (%ld start probing in the same slot, %ld both in the last slot) x 3 lookups; 256 crowded tables", nk, pairs, same_start, wraps);
+    if (!same_start || !wraps) { printf("HARNESS cdb collision enumeration is vacuous\n"); h_real_exit(2); }
+  }
 }
 
 /* ------------------------------------------------------------------------------------------------ seek: offsets beyond 2^31 and 2^32 */
